@@ -591,9 +591,53 @@ theorem vmfault_subject_is_source (hw : Words4 (e :: rest)) :
       runHandler Gen.PyIRCo.mach env (parseEventList env) "MACH_vmfault" t (e :: rest) := by
   rw [handle_mach_vmfault_ir_eq_model env _ t e rest hw, vmfault_nested]
 
+/-- **`handle_timing_launch_executable`, interpreted, is `hDyldLaunch`**: `uuid_map_a` = the interpreted
+    `handle_uuid_map_a(parser, [e])` of every record named `DYLD_uuid_map_a`, then `handle_uuid_shared_cache_a(parser, [e])`
+    of every record named `DYLD_uuid_shared_cache_a` (window order; `UUID(bytes=data[:16])` raises ValueError on a short
+    record, the first one in that order), `sorted(…, key=lambda x: x.load_addr)` (stable); main_executable_mh = START word 1;
+    `str()` through the translated `__str__`; tables untouched. -/
+theorem handle_timing_launch_executable_ir_eq_model (hw : Words4 (e :: rest)) :
+    runHandler Gen.PyIRCo.dyld env nested "DBG_DYLD_TIMING_LAUNCH_EXECUTABLE" t (e :: rest) = hDyldLaunch env t (e :: rest) := by
+  rw [source_is_expected_ir.2.2.1]; exact run_launch env nested t e rest hw
+
+/-- `launch_spec` speaks about the translated source. -/
+theorem launch_subject_is_source (hw : Words4 (e :: rest)) :
+    handle env t "DBG_DYLD_TIMING_LAUNCH_EXECUTABLE" (e :: rest) =
+      runHandler Gen.PyIRCo.dyld env nested "DBG_DYLD_TIMING_LAUNCH_EXECUTABLE" t (e :: rest) := by
+  rw [handle_timing_launch_executable_ir_eq_model env nested t e rest hw]
+  show handleWith _ env t "DBG_DYLD_TIMING_LAUNCH_EXECUTABLE" (e :: rest) = _
+  rw [handleWith_launch]
+
+/-- **The whole parser with the four composite handlers taken from the source** (`PERF_Event`, `PERF_THD_Data`,
+    `MACH_vmfault`, `DBG_DYLD_TIMING_LAUNCH_EXECUTABLE` interpreted from the generated programs, nested
+    `parse_event_list` calls included) is `Trace.run`: same traces, same exception, same final state — from every state
+    whose open windows hold four-word records, on every stream of four-word records. -/
+theorem run_ir_eq_model (s : PState) (es : List Kevent)
+    (hs : PInv (fun x => x.values.length = 4) s.pairing) (hw : Words4 es) :
+    runVia Gen.PyIRCo.progs env s es = Trace.run env s es := by
+  have h : Gen.PyIRCo.progs = PyIRCo.Expected.progs := by
+    show (⟨Gen.PyIRCo.perf, Gen.PyIRCo.mach, Gen.PyIRCo.dyld⟩ : Programs) = ⟨_, _, _⟩
+    rw [source_is_expected_ir.1, source_is_expected_ir.2.1, source_is_expected_ir.2.2.1]
+  rw [h]; exact runVia_eq env es s hs hw
+
 end ir
 
+/-- Enum members are compared by (class, name) in the interpreter (`SamplerAction.SAMPLER_TH_INFO in e.sample_what`): exact
+    because no two members of the reflected `SamplerAction` share a value (no aliases). -/
+theorem sampler_action_has_no_alias : (Gen.Enums.SamplerAction.members.map (·.value)).Nodup := by decide
+
 /-! #### non-vacuity: the generated handlers on concrete windows -/
+
+example : PyIRCo.Words4 launchWin := by decide
+example : PInv (fun x => x.values.length = 4) Pairing.PState.empty := PInv_empty _
+
+/-- the generated launch handler on `launchWin`: four images, ascending, equal addresses in "maps first" order -/
+example :
+    (PyIRCo.runHandler Gen.PyIRCo.dyld env0 (fun t _ => .ok (none, t)) "DBG_DYLD_TIMING_LAUNCH_EXECUTABLE" {}
+        launchWin).toOption.map (fun r => r.1.map fun o => (o.text.toOption, match o.extra with | .launch i => i | _ => [])) =
+      some (some (some "DBG_DYLD_TIMING_LAUNCH_EXECUTABLE, main_executable_mh: 0x10000",
+        [(0x1000, List.replicate 16 4), (0x2000, List.replicate 16 3), (0x2000, List.replicate 16 1),
+         (0x3000, List.replicate 16 2)])) := by decide +kernel
 
 example : PyIRCo.Words4 vmWin := by decide
 
